@@ -163,13 +163,16 @@ fn short_forms() -> &'static Vec<(Ev, String)> {
             match ev {
                 Ev::I64 | Ev::Num => b.extend(["(4611686018427387904)", "(0)", "(@)"]),
                 Ev::Dec => b.extend(["(39614081257132168796771975168)", "(0)"]),
-                Ev::F64 => b.extend(["(0)", "(@)"]),
+                Ev::F64 => {
+                    a.extend(["6.022", "5"]);
+                    b.extend(["(0)", "(@)", "(10^23)", "(10)", "(10^25)", "(10²⁴)"]);
+                }
                 Ev::Cpx => {}
             }
             if vocab::has_floor_brackets(ev) {
                 b.extend(["⌊3.5⌋", "⌈2.5⌉"]);
             }
-            let mut suffix: Vec<&str> = vec!["", "^2", "²"];
+            let mut suffix: Vec<&str> = vec!["", "^2", "²", "^24", "²⁴"];
             if vocab::has_fact(ev) {
                 suffix.extend(["!", "!^2", "^2!", "²!"]);
             }
